@@ -373,8 +373,8 @@ def main():
     try:
         exe = native_build(scratch)
         val_bad = validate(exe, scratch, seed, nval)
-    except P.Inconclusive as ex:
-        val_bad = [{"error": str(ex)}]
+    except (P.Inconclusive, Unsupported) as ex:
+        val_bad = [{"error": "%s: %s" % (type(ex).__name__, ex)}]
     if failed:
         try:
             for r in failed:
